@@ -107,6 +107,15 @@ class Lane:
             return {'kind': 'dup', 'key': key, 'regions': rec['regions']}
         what = f'{self.name}: obligation "{name}" fails; predicted outcome {json.dumps(self.summary(out, m), default=str)[:300]}'
         reproduced = False; detail = None
+        if hasattr(self, 'replay_by_role'):
+            # async lanes: the counterexample is reproduced as a scenario against a scripted in-process peer
+            try:
+                reproduced, key2, what2, cse, detail = self.replay_by_role(cinp, name, out, m)
+                if key2: key = key2
+                if what2: what = what2
+            except Exception as e:
+                detail = {'replay_error': f'{type(e).__name__}: {e}'}
+            return {'kind': 'viol', 'key': key, 'what': what, 'case': cse, 'reproduced': reproduced, 'detail': detail, 'regions': rec['regions']}
         try:
             nj = native([cse])[0]
             nout = self.native_outcome(cinp, nj)
